@@ -18,8 +18,14 @@ import traceback
 from typing import Any, Callable, Iterable
 
 ROOT = os.path.dirname(os.path.dirname(os.path.abspath(__file__)))
-EVIDENCE_DIR = os.path.join(ROOT, 'evidence')
-REPLAY_DIR = os.path.join(ROOT, 'replays')
+if os.environ.get('VERIF_REPO', '/repo') in ('', '/repo'):
+    EVIDENCE_DIR = os.path.join(ROOT, 'evidence')
+    REPLAY_DIR = os.path.join(ROOT, 'replays')
+else:
+    # runs against a scratch copy of the repository (mutation experiments) must not
+    # clobber the evidence / replays of the real tree
+    EVIDENCE_DIR = os.path.join(ROOT, '.work', 'alt', 'evidence')
+    REPLAY_DIR = os.path.join(ROOT, '.work', 'alt', 'replays')
 FINDINGS_FILE = os.path.join(ROOT, 'known_findings.json')
 
 
